@@ -10,7 +10,7 @@ import copy
 import importlib
 import re
 
-PROP_GROUPS = {'C18': ['fetcher', 'producer'], 'C20': ['sql'], 'C16': ['concat', 'concat_map', 'duplicate'], 'C12': ['sortkey'], 'C04': ['driver'], 'C15': ['fields', 'delete_schema', 'select_schema', 'get_type'], 'C01': ['flow'], 'C07': ['flow', 'ejson', 'ejson_hook'], 'C11': ['join'], 'C02': ['join', 'get_type'], 'C10': ['matcher'], 'C14': ['handlers', 'vloop'], 'C17': ['rows'], 'C13': ['load']}
+PROP_GROUPS = {'C18': ['fetcher', 'producer', 'worker', 'collector'], 'C20': ['sql'], 'C16': ['concat', 'concat_map', 'duplicate'], 'C12': ['sortkey'], 'C04': ['driver'], 'C15': ['fields', 'delete_schema', 'select_schema', 'get_type'], 'C01': ['flow'], 'C07': ['flow', 'ejson', 'ejson_hook'], 'C11': ['join'], 'C02': ['join', 'get_type'], 'C10': ['matcher'], 'C14': ['handlers', 'vloop'], 'C17': ['rows'], 'C13': ['load']}
 
 
 # ---------------------------------------------------------------- encoding
@@ -683,6 +683,115 @@ def run_producer(ctx, b, n):
     b.flush()
 
 
+def run_worker(ctx, b, n):
+    """one turn of parallelize's worker loop: the real `work` run in-process on scripted queues (the output queue recorded at
+    every `get`), each turn against the translated loop body; the row function raises on some rows"""
+    PZ = importlib.import_module('dataflows.processors.parallelize')
+    from .common import quiet
+    rng = ctx.rng('pycorr-worker')
+    for _ in range(max(2, n // 6)):
+        items = [rng.randint(0, 9) for _ in range(rng.randint(0, 6))] + [None] + [rng.randint(0, 9) for _ in range(rng.randint(0, 2))]
+        bad = set(rng.sample(range(10), rng.randint(0, 4)))
+        turns = []
+
+        class QOut:
+            def __init__(self):
+                self.items = []
+
+            def put(self, v):
+                self.items.append(v)
+
+        qout = QOut()
+
+        class QIn:
+            def __init__(self):
+                self.i = 0
+
+            def get(self, *a, **k):
+                turns.append(list(qout.items))
+                it = items[self.i]
+                self.i += 1
+                return it
+
+        def row_func(r):
+            if r in bad:
+                raise ValueError('bad row %r' % r)
+
+        with quiet():
+            PZ.work(QIn(), qout, row_func)
+        if qout.items[-1:] != [None]:
+            ctx.report.disagreements.append({'op': 'pyeval:worker', 'case': [items], 'real': repr(qout.items)[:200], 'model': 'no end marker'})
+            continue
+        finals = turns[1:] + [qout.items[:-1]]            # the worker's own end marker is put after the loop
+        for k, before in enumerate(turns):
+            item = items[k]
+            exc = opq('exception', 'Exception')
+            ext = [['.get', [to_pv('q_in')], to_pv(item)], ['.put!', [to_pv(before), to_pv(item)], to_pv(before + [item])],
+                   ['row_func', [to_pv(item)], {'raise': 'Exception'} if item in bad else to_pv(None)],
+                   ['.format', [to_pv('FAILED TO RUN row_func {}\n'), exc], to_pv('FAILED')], ['print', [to_pv(1), to_pv('FAILED')], to_pv(None)]]
+            env = [['q_in', to_pv('q_in')], ['q_out', to_pv(before)], ['pid', to_pv(1)]]
+            op = {'op': 'pyeval', 'fn': 'par_work_body', 'mode': 'value', 'args': [], 'want': 'q_out', 'env': env, 'ext': ext}
+            b.add_op(op, 'par_work_body', {'ok': finals[k]}, case=[item, item in bad, len(before)])
+    b.flush()
+
+
+def run_collector(ctx, b, n):
+    """one turn of the collector loop in parallelize.fork: the real `fork` generator with the module's queue / thread / process
+    machinery replaced by a scripted internal queue, each turn against the translated loop body"""
+    PZ = importlib.import_module('dataflows.processors.parallelize')
+    rng = ctx.rng('pycorr-collector')
+
+    class NoThread:
+        def __init__(self, *a, **k):
+            pass
+
+        def start(self):
+            pass
+
+        def join(self, *a, **k):
+            pass
+
+    for _ in range(max(2, n // 6)):
+        items = [rng.randint(0, 9) for _ in range(rng.randint(0, 6))] + [None] + [rng.randint(0, 9) for _ in range(rng.randint(0, 2))]
+        gets = []
+
+        class Scripted:
+            def __init__(self, *a, **k):
+                self.i = 0
+
+            def get(self, *a, **k):
+                it = items[self.i]
+                self.i += 1
+                gets.append(it)
+                return it
+
+            def put(self, v):
+                pass
+
+        class FakeQueueMod:
+            Queue = Scripted
+
+        class FakeThreading:
+            Thread = NoThread
+
+        class FakeMp:
+            Queue = Scripted
+            Process = NoThread
+
+        saved = (PZ.queue, PZ.threading, PZ.mp, PZ.init_mp, PZ.fini_mp)
+        PZ.queue, PZ.threading, PZ.mp = FakeQueueMod, FakeThreading, FakeMp
+        PZ.init_mp = lambda *a, **k: ([], NoThread())
+        PZ.fini_mp = lambda *a, **k: None
+        try:
+            real_out = list(PZ.fork(iter([100]), lambda r: r, 2, None))
+        finally:
+            PZ.queue, PZ.threading, PZ.mp, PZ.init_mp, PZ.fini_mp = saved
+        for k, item in enumerate(gets):
+            want = real_out[k:k + 1] if item is not None else (real_out[k:] if k < len(real_out) else [])
+            b.add('par_collector_body', ['q'], {'ok': want}, ext=[['.get', [to_pv('q')], to_pv(item)]], case=[item, k])
+    b.flush()
+
+
 def run_duplicate(ctx, b, n):
     """duplicate's descriptor generator: the real step's resulting resource list against the translated generator"""
     from dataflows import Flow
@@ -1339,7 +1448,7 @@ def run_flow(ctx, b, n):
     b.flush()
 
 
-RUNNERS = {'producer': run_producer, 'fetcher': run_fetcher, 'concat_map': run_concat_map, 'sql': run_sql, 'duplicate': run_duplicate, 'get_type': run_get_type, 'select_schema': run_select_schema, 'delete_schema': run_delete_schema, 'concat': run_concat, 'ejson_hook': run_ejson_hook, 'sortkey': run_sortkey, 'ejson': run_ejson, 'driver': run_driver, 'fields': run_fields, 'flow': run_flow, 'load': run_load, 'vloop': run_vloop, 'join': run_join, 'matcher': run_matcher, 'handlers': run_handlers, 'rows': run_rows}
+RUNNERS = {'collector': run_collector, 'worker': run_worker, 'producer': run_producer, 'fetcher': run_fetcher, 'concat_map': run_concat_map, 'sql': run_sql, 'duplicate': run_duplicate, 'get_type': run_get_type, 'select_schema': run_select_schema, 'delete_schema': run_delete_schema, 'concat': run_concat, 'ejson_hook': run_ejson_hook, 'sortkey': run_sortkey, 'ejson': run_ejson, 'driver': run_driver, 'fields': run_fields, 'flow': run_flow, 'load': run_load, 'vloop': run_vloop, 'join': run_join, 'matcher': run_matcher, 'handlers': run_handlers, 'rows': run_rows}
 
 
 def run(ctx, groups=None, n=None):
